@@ -485,3 +485,16 @@ mut('c14-mean-backward-no-division', ['C14', 'C01'], 'mean_backward forgets to d
 mut('c14-avgpool-uses-max-backward', ['C14', 'C02'], 'avg_pool2d_backward routes the gradient through max_backward', [(K, "    windows_grad = mean_backward(grad, windows.reshape(*windows.shape[:-2], -1).shape, -1, False)\n    windows_grad = windows_grad.reshape(windows.shape)", "    windows_grad = max_backward(grad, windows.reshape(*windows.shape[:-2], -1), -1, False)\n    windows_grad = windows_grad.reshape(windows.shape)")], rules=['C14.TREE', 'C02.POOLPAIR'])
 mut('c14-stack-backward-other-axis', ['C14'], 'stack_backward unbinds along axis 0', [(K, "    return unbind_forward(grad, axis)", "    return unbind_forward(grad, 0)")], rules=['C14.TREE'])
 mut('c14-linear-untransposed', ['C14', 'C02'], 'linear multiplies by W instead of W.T in the bias branch', [(NF, "out_data = cpu_ops.addmm_forward(bias.data, x.data, weight.data.T)", "out_data = cpu_ops.addmm_forward(bias.data, x.data, weight.data)")], rules=['C14.TREE', 'C02.SAVED'])
+
+# ------------------------------------------------------------------------------------------------ DERIV (C01 / C02)
+mut('c01-sqrt-missing-half', ['C01'], 'sqrt_backward returns grad / sqrt(a) (factor 1/2 lost; linear, right shape)', [(K, "return grad / (2 * sqrt_a)", "return grad / sqrt_a")], rules=['C01.DERIV'])
+mut('c01-pow-exponent', ['C01'], 'pow_backward uses a**n instead of a**(n-1)', [(K, "return n * (a ** (n - 1)) * grad", "return n * (a ** n) * grad")], rules=['C01.DERIV'])
+mut('c01-log-no-epsilon', ['C01'], 'log_backward differentiates log(a) while the forward computes log(a + epsilon)', [(K, "return grad / (a + epsilon)", "return grad / a")], rules=['C01.DERIV'])
+mut('c01-rpow-missing-log', ['C01'], 'rpow_backward omits log(n)', [(K, "return (exp_n_a * np.log(n)) * grad", "return exp_n_a * grad")], rules=['C01.DERIV', 'C01.DEP'])
+mut('c01-mul-same-operand', ['C01'], 'mul_backward multiplies both slots by b', [(K, "    grad_b = grad * a\n    return unbroadcast(grad_a, a.shape), unbroadcast(grad_b, b.shape)\n\n\ndef matmul_forward", "    grad_b = grad * b\n    return unbroadcast(grad_a, a.shape), unbroadcast(grad_b, b.shape)\n\n\ndef matmul_forward")], rules=['C01.DERIV', 'C01.DEP'])
+mut('c02-tanh-not-squared', ['C02'], 'tanh_backward uses 1 - tanh(a)', [(K, "return grad * (1 - tanh_a**2)", "return grad * (1 - tanh_a)")], rules=['C02.DERIV'])
+mut('c02-sigmoid-missing-factor', ['C02'], 'sigmoid_backward drops (1 - s)', [(K, "return grad * sigmoid_a * (1 - sigmoid_a)", "return grad * sigmoid_a")], rules=['C02.DERIV'])
+mut('c02-mse-no-factor-2', ['C02'], 'mse_loss_backward drops the factor 2', [(K, "return grad * 2 * (y_pred - y_true)", "return grad * (y_pred - y_true)")], rules=['C02.DERIV'])
+mut('c01-twin-sqrt-half', ['C01'], 'sqrt_backward written as 0.5 * grad / sqrt_a', [(K, "return grad / (2 * sqrt_a)", "return 0.5 * grad / sqrt_a")], expect='silent')
+mut('c02-twin-sigmoid-expanded', ['C02'], 'sigmoid_backward written as grad * (s - s**2)', [(K, "return grad * sigmoid_a * (1 - sigmoid_a)", "return grad * (sigmoid_a - sigmoid_a**2)")], expect='silent')
+mut('c02-twin-sigmoid-forward-form', ['C02'], 'sigmoid_forward written as exp(a)/(1+exp(a))-free form 1/(1+exp(-a)) with a temporary', [(K, "    return 1/(1 + np.exp(-a))", "    e = np.exp(-a)\n    return 1/(1 + e)")], expect='silent')
